@@ -244,6 +244,19 @@ func c19NilConsistency(c *Ctx) {
 func c19LeafAgreement(c *Ctx) {
 	p := c.P
 	v := p.Func("consensus/propeller", "UnitValidator", "verifyDataShards")
+	if v == nil {
+		// by role: the function of the package that hands a unit's shard to merkle's Proof.Verify
+		for _, g := range p.sortedFuncs() {
+			if pkgRelOf(g) != "consensus/propeller" || g.Origin() != nil || strings.HasSuffix(p.Pos(fnPos(g)), "_test.go") || p.InFixture(fnPos(g)) {
+				continue
+			}
+			for _, s2 := range sitesOf(g) {
+				if s2.Callee != nil && s2.Callee.Name() == "Verify" && strings.Contains(qname(s2.Callee), "merkle") {
+					v = g
+				}
+			}
+		}
+	}
 	cr := p.Func("consensus/propeller", "", "CreatePropellerUnits")
 	if v == nil || cr == nil {
 		c.und("leaf-agreement", "verifyDataShards/CreatePropellerUnits", "", "anchor not found")
@@ -339,7 +352,38 @@ func c19ValidateOrder(c *Ctx) {
 		return
 	}
 	n := 0
-	allInstrs(f, func(in ssa.Instruction) {
+	// the three checks by role, not by name: the same-package functions that (transitively) reach the primitive of the role
+	roleNames := func(prim func(Site) bool) []string {
+		var out []string
+		for _, g := range p.sortedFuncs() {
+			if pkgRelOf(g) != "consensus/propeller" || g.Origin() != nil || len(g.Blocks) == 0 {
+				continue
+			}
+			if len(p.deepSites(g, prim, 2)) > 0 || func() bool {
+				for _, s := range sitesOf(g) {
+					if prim(s) {
+						return true
+					}
+				}
+				return false
+			}() {
+				out = append(out, g.Name()+"(")
+			}
+		}
+		return out
+	}
+	roles := []struct {
+		what  string
+		names []string
+	}{
+		{"the origin check (ValidateShardOrigin)", append(roleNames(nameMatcher("ValidateShardOrigin")), "ValidateShardOrigin(")},
+		{"the Merkle proof check (Proof.Verify)", roleNames(func(s Site) bool {
+			return s.Callee != nil && s.Callee.Name() == "Verify" && strings.Contains(qname(s.Callee), "merkle")
+		})},
+		{"the signature check (VerifyMessageSignature)", append(roleNames(nameMatcher("VerifyMessageSignature")), "VerifyMessageSignature(")},
+	}
+	for _, di := range p.deepInstrs(f, 2) {
+		in := di.In
 		var target ssa.Value
 		switch x := in.(type) {
 		case *ssa.MapUpdate:
@@ -349,22 +393,25 @@ func c19ValidateOrder(c *Ctx) {
 				target = ia.X
 			}
 		}
-		if target == nil || !strings.HasSuffix(term(target), "v.receivedShards") {
-			return
+		if target == nil || !strings.HasSuffix(term(target), ".receivedShards") {
+			continue
 		}
 		n++
 		d := p.mustHoldAt(in)
-		for _, need := range [][]string{
-			{"^!", "ValidateShardOrigin(", "!= nil"},
-			{"^!", "verifyDataShards(", "!= nil"},
-			{"^!", "verifySignature(", "!= nil"},
-		} {
-			ok, miss := everyDisjunctHas(d, need)
-			c.check(ok, "validate-order", "Validate: receivedShards ← after "+need[1], p.Pos(posOf(in, f)), "recorded only after the check passed", "a shard is recorded as received although "+need[1]+"…) did not pass: "+miss)
+		if len(di.Chain) > 0 {
+			d = p.mustHoldChain(in, di.Chain)
 		}
-		okd, miss := everyDisjunctHas(d, []string{"^!", "v.receivedShards[", "#1"}, []string{"^!", "v.receivedShards["})
-		c.check(okd, "validate-order", "Validate: duplicate index rejected", p.Pos(posOf(in, f)), "recorded only if not seen before", "duplicate shard index is not rejected before recording: "+miss)
-	})
+		for _, role := range roles {
+			var alts [][]string
+			for _, nm := range role.names {
+				alts = append(alts, []string{"^!", nm, "!= nil"})
+			}
+			ok, miss := everyDisjunctHas(d, alts...)
+			c.check(ok && len(alts) > 0, "validate-order", "Validate: receivedShards ← after "+role.what, p.Pos(posOf(in, in.Parent())), "recorded only after the check passed", "a shard is recorded as received although "+role.what+" did not pass: "+clip(miss, 200))
+		}
+		okd, miss := everyDisjunctHas(d, []string{"^!", ".receivedShards[", "#1"}, []string{"^!", ".receivedShards["}, []string{"^!", "hasReceived("}, []string{"^!", "eceived("})
+		c.check(okd, "validate-order", "Validate: duplicate index rejected", p.Pos(posOf(in, in.Parent())), "recorded only if not seen before", "duplicate shard index is not rejected before recording: "+clip(miss, 200))
+	}
 	if n == 0 {
 		c.und("validate-order", "Validate", p.Pos(fnPos(f)), "recording of the received shard not found")
 	}
@@ -507,7 +554,25 @@ func c19Merkle(c *Ctx) {
 				hasNonce = true
 			}
 		}
-		c.check(strings.Contains(srcs, "root") && strings.Contains(srcs, "committeeID") && hasNonce, "sign-agreement", "buildSignPayload fields", p.Pos(fnPos(bs)), "root, committee id and nonce are all part of the signed payload", "the signed payload no longer binds root, committee id and nonce ("+srcs+")")
+		// by flow, whatever the encoder looks like (copy + PutUint64, append + AppendUint64 …): the returned payload is computed from
+		// each of the three parameters
+		flowAll := len(bs.Params) >= 3
+		if flowAll {
+			reach := map[ssa.Value]bool{}
+			for _, r := range returnsOf(bs) {
+				for _, res := range r.Results {
+					for v := range backSlice(res) {
+						reach[v] = true
+					}
+				}
+			}
+			for _, pa := range bs.Params[:3] {
+				if !reach[pa] {
+					flowAll = false
+				}
+			}
+		}
+		c.check((strings.Contains(srcs, "root") && strings.Contains(srcs, "committeeID") && hasNonce) || flowAll, "sign-agreement", "buildSignPayload fields", p.Pos(fnPos(bs)), "root, committee id and nonce are all part of the signed payload", "the signed payload no longer binds root, committee id and nonce ("+srcs+")")
 		if s := findSite(vf, "Verify"); s != nil {
 			for _, ret := range returnsOf(vf) {
 				if !isNilConst(ret.Results[0]) {
@@ -578,7 +643,27 @@ func c19OriginRule(c *Ctx) {
 // proof-length formula that disagrees with merkle.New's padding for a one-shard committee; that is arithmetic over n.)
 func c19ValidatorDiscipline(c *Ctx) {
 	p := c.P
-	if f := p.Func("consensus/propeller", "UnitValidator", "verifySignature"); f != nil {
+	f := p.Func("consensus/propeller", "UnitValidator", "verifySignature")
+	storesCache := func(g *ssa.Function) bool {
+		found := false
+		allInstrs(g, func(in ssa.Instruction) {
+			if st, ok := in.(*ssa.Store); ok {
+				if fa, ok := st.Addr.(*ssa.FieldAddr); ok && fieldName(fa.X.Type(), fa.Field) == "verifiedSignature" {
+					found = true
+				}
+			}
+		})
+		return found
+	}
+	if f == nil || !storesCache(f) {
+		// by role: the method of the package that remembers the verified signature
+		for _, g := range p.sortedFuncs() {
+			if pkgRelOf(g) == "consensus/propeller" && g.Origin() == nil && g.Signature.Recv() != nil && !strings.HasPrefix(g.Name(), "New") && !strings.HasSuffix(p.Pos(fnPos(g)), "_test.go") && !p.InFixture(fnPos(g)) && storesCache(g) {
+				f = g
+			}
+		}
+	}
+	if f != nil {
 		n := 0
 		allInstrs(f, func(in ssa.Instruction) {
 			st, ok := in.(*ssa.Store)
